@@ -84,6 +84,7 @@ def run(ctx):
     string_flag(ctx, ctx.facts("effects.cpp", "A", ()), core)
     order_preserved(ctx, ctx.facts("effects.cpp", "A", ()))
     hex_escape(ctx, core)
+    member_helpers(ctx, ctx.facts("effects.cpp", "A", ()))
 
 
 def matrix_witness():
@@ -604,3 +605,84 @@ def hex_escape(ctx, facts):
                 text += x.get("str", "")
         ctx.ob("C04.R8b", "sanitize_non_printable_chars<%s>:escape-prefix" % (f.rec.get("targs") or ["?"])[0][:40], "\\x" in text,
                "the escape is introduced by backslash-x (literal text found in the function: %r)" % text[:12], fn=f)
+
+
+def member_helpers(ctx, facts):
+    """R9: the documented helpers for user-defined codecs, and the placement path of DeferredFormatCodec"""
+    spec = {"quill::compute_total_encoded_size": ("compute_encoded_size", 1, [0], 1), "quill::encode_members": ("encode", 3, [0, 1, 2], 3),
+            "quill::decode_members": ("decode_arg", 2, [0], None)}
+    for nm, (callee, first, shared, member_arg) in spec.items():
+        fs = facts.need(nm, "A")
+        for f in fs[:4]:
+            ps = [p_["did"] for p_ in f.rec["params"]]
+            members = ps[first:]
+            calls = [c for c in f.calls(r"^quill::Codec<.*>::%s$" % callee)]
+            ok = len(calls) == len(members) and len(members) >= 1
+            if ok:
+                # in source order = evaluation order of the comma fold
+                calls = sorted(calls, key=lambda c: c["id"])
+                for i, c in enumerate(calls):
+                    for k in shared:
+                        ok = ok and var_ref(c["args"][k]) == ps[k]
+                    if member_arg is not None:
+                        ok = ok and var_ref(c["args"][member_arg]) == members[i]
+                    else:
+                        # members[i] = Codec<Ti>::decode_arg(buffer)
+                        par = f.parent(c)
+                        asg = None
+                        for a in f.ancestors(c):
+                            if (a["k"] == "BinaryOperator" and a["op"] == "=") or (a["k"] == "CXXOperatorCallExpr" and short(a.get("callee") or "").endswith("operator=")):
+                                asg = a
+                                break
+                        lhs = (asg["lhs"] if asg and asg["k"] == "BinaryOperator" else asg["args"][0]) if asg else None
+                        ok = ok and lhs is not None and var_ref(lhs) == members[i]
+            ctx.ob("C04.R9a", "%s<%d members>" % (nm.replace("quill::", ""), len(members)), ok,
+                   "the helper makes exactly one Codec<Ti>::%s call per member, in member order, on the cursor / size cache / cache index "
+                   "it was given (the summary the layout comparison uses for user codecs built with it)" % callee, fn=f)
+    # R9b: the size-cache index is threaded by reference: a function that hands its own parameter on as the index of an encode call
+    # must have received it by reference, or the callee's advance is lost and the next cached length is read from the wrong slot
+    n = 0
+    for f in facts.fns:
+        if f.config != "A":
+            continue
+        pmap = {p_["did"]: p_ for p_ in f.rec.get("params") or []}
+        if not pmap:
+            continue
+        for c in f.calls(r"(^quill::Codec<.*>::encode$|^quill::encode_members\b|^quill::(DeferredFormatCodec|DirectFormatCodec)<.*>::encode$)"):
+            if len(c["args"]) < 3:
+                continue
+            v = var_ref(c["args"][2])
+            if v in pmap:
+                n += 1
+                ty = pmap[v]["ty"].replace(" ", "")
+                ctx.ob("C04.R9b", "%s:index-by-reference" % short(f.name)[:120], ty.endswith("&") and "const" not in ty,
+                       "the cache index handed on to %s is this function's own parameter '%s' of type %s: it must be a non-const "
+                       "reference so that the advance made by the callee reaches the caller" % (short(c["callee"])[:60], pmap[v]["name"], pmap[v]["ty"]), fn=f)
+    ctx.floor("C04.R9b", "functions forwarding the size-cache index", n, 20)
+    # R9c: align-up idiom of the placement path: (p + (a - 1)) & ~(a - 1), so the object starts within [p, p + a - 1] and ends inside
+    # the sizeof + alignof - 1 bytes that were reserved
+    al = facts.need("quill::DeferredFormatCodec::align_pointer", "A")
+    for f in al[:3]:
+        pp, ap = f.rec["params"][0]["did"], f.rec["params"][1]["did"]
+        ok = False
+        def a_minus_1(e):
+            e = strip(e, casts=True)
+            while isnode(e) and e["k"] == "ParenExpr":
+                e = strip(e.get("sub") or (e.get("c") or [None])[0], casts=True)
+            return isnode(e) and e["k"] == "BinaryOperator" and e["op"] == "-" and var_ref(e["lhs"]) == ap and const_val(e["rhs"]) == 1
+        for r in f.g.return_nodes():
+            v = f.g.node_ast(r).get("val")
+            for x in walk(v):
+                if x["k"] == "BinaryOperator" and x["op"] == "&":
+                    l = strip(x["lhs"], casts=True)
+                    while isnode(l) and l["k"] == "ParenExpr":
+                        l = strip(l.get("sub") or (l.get("c") or [None])[0], casts=True)
+                    r_ = strip(x["rhs"], casts=True)
+                    plus = isnode(l) and l["k"] == "BinaryOperator" and l["op"] == "+" and \
+                        ((any(y["k"] == "DeclRefExpr" and y.get("did") == pp for y in walk(l["lhs"])) and a_minus_1(l["rhs"])) or
+                         (any(y["k"] == "DeclRefExpr" and y.get("did") == pp for y in walk(l["rhs"])) and a_minus_1(l["lhs"])))
+                    mask = isnode(r_) and r_["k"] == "UnaryOperator" and r_["op"] == "~" and a_minus_1(r_["sub"])
+                    ok = plus and mask
+        ctx.ob("C04.R9c", "%s:align-up" % short(f.name)[:100], ok,
+               "the placement address is (p + (alignment - 1)) & ~(alignment - 1): the first aligned address not below p, at most alignment - 1 "
+               "bytes further, so the object ends inside the sizeof(T) + alignof(T) - 1 bytes reserved for it", fn=f)
